@@ -143,6 +143,41 @@ def dsl_family(tier):
                     "pub const A: [u8; 1] = konst::iter::collect_const!(u8 => &[1u8, 2], skip(1), copied());\n", [dict(msg="nsupported iterator method")]))
     out.append(Prog("consumer-in-adapter-macro", "for_each/count", "pub fn f(s: &[u8]) { konst::iter::for_each!{x in s, count() => { let _ = x; }} }\n",
                     "pub fn f(s: &[u8]) { konst::iter::for_each!{x in s, copied() => { let _ = x; }} }\n", [dict(msg="method cannot be called in this macro")]))
+    # F'. the same guards with the offending method at other positions of the chain: the macros rebuild their internal state after
+    #     some adapters (flat_map/flatten open a nested loop, zip adds a second iterator, ...), and each rebuilt state must still
+    #     reach the guard.  Source: a slice of slices, so that every prefix type-checks.
+    PREFIXES = [("after-map", "map(|x| x), "), ("after-flatten", "flatten(), "), ("after-flat_map", "flat_map(|x| *x), "),
+                ("after-zip", "zip(0usize..), "), ("after-take_while", "take_while(|_| true), "), ("after-skip", "skip(1), "),
+                ("after-enumerate", "enumerate(), "), ("after-filter", "filter(|_| true), ")]
+    UNK = [dict(msg="nsupported iterator method"), dict(msg="method cannot be called in this macro"), dict(msg="no rules expected")]
+    for pname, pre in PREFIXES:
+        def ev2(chain):
+            return "pub fn f(s: &[&[u8]]) { let _ = konst::iter::eval!(s, %s); }\n" % chain
+
+        def fe2(chain, form):
+            if form == "block":
+                return "pub fn f(s: &[&[u8]]) { konst::iter::for_each!{x in s, %s => { let _ = x; }} }\n" % chain
+            if form == "paren;":
+                return "pub fn f(s: &[&[u8]]) { konst::iter::for_each!(x in s, %s => { let _ = x; }); }\n" % chain
+            return "pub fn f(s: &[&[u8]]) { let _ = konst::iter::for_each!{x in s, %s => { let _ = x; }}; }\n" % chain
+        out.append(Prog("unknown-method", "eval/%s/step_by" % pname, ev2(pre + "step_by(2), count()"), ev2(pre + "count()"), UNK))
+        out.append(Prog("args-to-argless", "eval/%s/enumerate(1)" % pname, ev2(pre + "enumerate(1), count()"), ev2(pre + "enumerate(), count()"),
+                        [dict(msg="does not take arguments")]))
+        if "rev" not in pre and "zip" not in pre and "take_while" not in pre and "skip" not in pre and "flat" not in pre:
+            out.append(Prog("double-reversal", "eval/%s/rev,rev" % pname, ev2(pre + "rev(), rev(), count()"), ev2(pre + "rev(), count()"),
+                            [dict(msg="cannot call two iterator-reversing methods")]))
+        for form in ("block", "paren;", "let"):
+            good = fe2(pre.rstrip(", "), form)
+            out.append(Prog("unknown-method", "for_each[%s]/%s/step_by" % (form, pname), fe2(pre + "step_by(2)", form), good, UNK))
+            for cons in ("count()", "any(|_| true)", "for_each(|_| ())", "next()", "fold(0u8, |a, _| a)"):
+                out.append(Prog("consumer-in-adapter-macro", "for_each[%s]/%s/%s" % (form, pname, cons.split("(")[0]),
+                                fe2(pre + cons, form), good, UNK + [dict(code="E0308")]))
+    for pname, pre in (("after-flatten", "flatten(), "), ("after-map", "map(|x| x), ")):
+        cc = "const S: &[&[u8]] = &[&[1, 2]];\npub const A: [u8; 2] = konst::iter::collect_const!(u8 => S, %scopied());\n"
+        out.append(Prog("unknown-method", "collect_const/%s/step_by" % pname, cc % ("flatten(), step_by(2), " if "flatten" in pre else "flatten(), map(|x| x), step_by(2), "),
+                        cc % ("flatten(), " if "flatten" in pre else "flatten(), map(|x| x), "), UNK))
+        out.append(Prog("consumer-in-adapter-macro", "collect_const/%s/count" % pname, cc % ("flatten(), count(), " if "flatten" in pre else "flatten(), map(|x| x), count(), "),
+                        cc % ("flatten(), " if "flatten" in pre else "flatten(), map(|x| x), "), UNK))
     # G. arguments to argument-less methods
     for m, tail_ in (("rev", ", count()"), ("copied", ", count()"), ("enumerate", ", count()"), ("flatten", None), ("count", ""), ("next", "")):
         if m == "flatten":
